@@ -129,7 +129,11 @@ NextBad(e) ==
 GraveBad(e) ==
     LET need == Cardinality(Needed(e.t)) IN
     IF e.n < need THEN "C08_Retain"
-    ELSE IF e.quiet /\ e.n # need THEN "C08_Drain"
+    ELSE IF e.quiet /\ e.n # need
+         THEN \* deletions retained although no registered iterator needs them: if an iterator of an aborted
+              \* transaction exists the abort left its tracker behind
+              IF \E i \in DOMAIN iter : iter[i].st = "dead" /\ iter[i].t = e.t THEN "C08_C02_AbortLeftTracker"
+              ELSE "C08_Drain"
     ELSE "ok"
 
 InitBad(e) ==
